@@ -163,6 +163,15 @@ pub struct Line {
     pub op: Op,
 }
 
+/// one `size_hint()` reading for the transcript: `lo` when it is exact, `lo/hi` otherwise
+pub fn hint_fmt(h: (usize, Option<usize>)) -> String {
+    match h {
+        (lo, Some(hi)) if lo == hi => format!("{lo}"),
+        (lo, Some(hi)) => format!("{lo}/{hi}"),
+        (lo, None) => format!("{lo}/none"),
+    }
+}
+
 pub fn fmt_op(mid: usize, op: &Op) -> String {
     match op {
         Op::New { cap, seed } => format!("new {mid} {cap} {seed}"),
@@ -478,6 +487,7 @@ impl World {
         let _ = pre_ref_keys;
         let mut orc: Vec<String> = vec![];
         let mut obsx: Vec<String> = vec![]; // ret=, retd=
+        let mut hints: Vec<String> = vec![];
         let mut head = fmt_op(mid, op);
         let mut panic_kind: Option<String> = None;
         let mut dh = 0u64;
@@ -887,6 +897,7 @@ impl World {
                 let cr = windowed(|| {
                     let mut it = m.drain();
                     for i in 0..take {
+                        hints.push(hint_fmt(it.size_hint()));
                         if it.len() != len0 - i.min(len0) || it.size_hint() != (len0 - i.min(len0), Some(len0 - i.min(len0))) {
                             hints_ok = false;
                         }
@@ -968,6 +979,7 @@ impl World {
                             let mut it = m.iter_mut();
                             let mut i = 0;
                             loop {
+                                hints.push(hint_fmt(it.size_hint()));
                                 if it.len() != len0 - i || it.size_hint() != (len0 - i, Some(len0 - i)) {
                                     problems.push(format!("iter_mut len at step {i}"));
                                 }
@@ -1003,6 +1015,7 @@ impl World {
                         let mut i = 0usize;
                         let mut cl: Option<(griddle::hash_map::Iter<'_, Key, Val>, usize)> = None;
                         loop {
+                            hints.push(hint_fmt(it.size_hint()));
                             if it.len() != len0 - i.min(len0) || it.size_hint() != (len0 - i.min(len0), Some(len0 - i.min(len0))) {
                                 problems.push(format!("iter len at step {i}: {} vs {}", it.len(), len0 - i.min(len0)));
                             }
@@ -1235,6 +1248,7 @@ impl World {
                 let cr = windowed(|| {
                     let mut it = m.into_iter();
                     for i in 0..take {
+                        hints.push(hint_fmt(it.size_hint()));
                         if it.len() != len0 - i.min(len0) {
                             hints_ok = false;
                         }
@@ -1473,6 +1487,10 @@ impl World {
         line.push_str(&orc.join(" "));
         line.push_str(" | ");
         obsx.push(format!("ret={ret}"));
+        if !hints.is_empty() {
+            // `size_hint()` as read before every pull of the iterator (the step machines of GriddleModel/Iter.lean)
+            obsx.push(format!("hints={}", hints.join(",")));
+        }
         if let Some(po) = &post {
             obsx.push(format!("len={} cap={} mi={} mgl={} mb={}", po.len, po.cap, po.mi, po.mgl, po.mb));
             obsx.push(match po.old {
